@@ -618,7 +618,7 @@ def stepU (s : St) (k : Nat) (v : Variant) : Option St :=
   | .subRelShut, .ok => some (uRelease { s with shut := s.shut + 1, oShut := none, visible := s.futs.length } k)
   -- shutdown(wait, kill_workers)
   | .sdAcq1 w kl, .ok => (acq s.shut).map fun x =>
-      set (.sdRel1 w) { s with shut := x, oShut := some (.U k), shutdownFlag := true, killFlag := kl }
+      set (.sdRel1 w) { s with shut := x, oShut := some (.U k), shutdownFlag := true, killFlag := s.killFlag || kl }
   | .sdRel1 w, .ok =>
       let s := { s with shut := s.shut + 1, oShut := none }
       some (if s.attrsDropped then uRelease s k else set (.sdAcq2 w) s)
